@@ -1206,6 +1206,23 @@ func PipelineCases() []*Case {
 	return out
 }
 
+// StaleGeneratedBundles: packages whose directory also holds generated .j5s.proto files left over
+// from an earlier run (outdated content, and one whose source is gone); the file source lists them
+// like every other file. They are not sources.
+func StaleGeneratedBundles() []*Case {
+	a := file("s/v1", "a")
+	foo := obj("Foo", fld("name", T(TString)), fld("extra", T(TInt32)))
+	a.Add(foo)
+	b := file("s/v1", "b")
+	b.Add(obj("Bar", fld("foo", RefTo(foo, "")), fld("foos", ArrayOf(RefTo(foo, "")))))
+	stale := &File{Dir: "s/v1", Name: "a.j5s", IsProto: true, ListedOnly: true}
+	stale.Add(obj("Foo", fld("name", T(TString))))
+	stale.Add(obj("Old", fld("x", T(TString))))
+	orphan := &File{Dir: "s/v1", Name: "zz.j5s", IsProto: true, ListedOnly: true}
+	orphan.Add(obj("Gone", fld("y", T(TString))))
+	return []*Case{{ID: "bundle:stale-generated-files", Family: "bundles", Coord: "bundles|stale-generated-files", P: &Program{Files: []*File{a, b, stale, orphan}}}}
+}
+
 // DeterminismBundles: multi-file, multi-package programs with many sibling
 // imports, options and annotations (the shapes where an iteration or listing
 // order could leak into the output).
@@ -1274,6 +1291,10 @@ func DeterminismBundles() []*Case {
 	{ // several annotations on every field
 		f := file("r/v1", "rules")
 		kind := enumD("Kind", "ONE", "TWO", "THREE")
+		// map-valued option entries: several info values per option, declared in an order that is not sorted
+		kind.Info = []InfoField{{Name: "weight", Label: "Weight"}, {Name: "colour", Label: "Colour", Desc: "the colour"}, {Name: "shape", Label: "Shape"}}
+		kind.Options[0].Info = map[string]string{"weight": "1", "colour": "red", "shape": "round"}
+		kind.Options[2].Info = map[string]string{"shape": "square", "colour": "blue"}
 		f.Add(kind)
 		f.Add(obj("Ruled",
 			&Field{Name: "name", T: T(TString), Required: true, Desc: "the name", Attrs: []string{"rules.minLength = 1", "rules.maxLength = 10", `rules.pattern = "^[a-z]+$"`, "listRules.searching.searchable = true"}},
